@@ -104,6 +104,26 @@ func (w *world) exec(line string) string {
 		default:
 			return "entered " + w.obs()
 		}
+	case "getv2":
+		// a GET on the other mount point of the mux (<prefix>/api/v2/, the generated API): the limit is one for all GETs.
+		// The handler (an empty silence list) returns at once.
+		rec := httptest.NewRecorder()
+		req := httptest.NewRequest(http.MethodGet, "/api/v2/silences", nil)
+		done := make(chan struct{})
+		go func() {
+			defer close(done)
+			w.mux.ServeHTTP(rec, req)
+		}()
+		synctest.Wait()
+		select {
+		case <-done:
+		default:
+			// never observed: the handler has nothing to wait for; give it virtual time, then report
+			time.Sleep(time.Second)
+			synctest.Wait()
+			<-done
+		}
+		return fmt.Sprintf("%d %s", rec.Code, w.obs())
 	case "release":
 		p := w.reqs[k]
 		close(p.release)
@@ -247,7 +267,11 @@ func runCase(t *testing.T, tr *hx.Trace, id int, r *rand.Rand, script []string) 
 				do(fmt.Sprintf("get %d block", next))
 				next++
 			case x < 6:
-				do(fmt.Sprintf("get %d quick", next))
+				if r.IntN(2) == 0 {
+					do(fmt.Sprintf("getv2 %d", next))
+				} else {
+					do(fmt.Sprintf("get %d quick", next))
+				}
 				next++
 			case x < 8:
 				do(fmt.Sprintf("post %d block", next))
